@@ -101,6 +101,12 @@ pub fn field_values() -> Vec<DocVal> {
         DocVal::s("1"),
         DocVal::s("0"),
         DocVal::s("2.5"),
+        DocVal::s("2"),
+        DocVal::s("2.0"),
+        DocVal::s("1000000000000000000000"),
+        DocVal::s("1e21"),
+        DocVal::s("-0"),
+        Float(1e21),
         DocVal::s("9223372036854775807"),
         DocVal::s("9223372036854775808"),
         DocVal::s("18446744073709551615"),
@@ -185,6 +191,12 @@ pub fn build_cases() -> Vec<Case> {
     push("lists", "    int(n): [1, '>=5', true]\n".to_string(), "A", &docs1);
     push("lists", "    flt(n): [1.5, '<0.5']\n".to_string(), "A", &docs1);
     push("lists", "    str(n): [1, 2.5, true, 'x']\n".to_string(), "A", &docs1);
+    // floats whose YAML spelling differs from the text a cast produces (2.0 -> "2", 1e21 -> digits)
+    push("lists", "    str(n): [2.0, 3.5]\n".to_string(), "A", &docs1);
+    push("lists", "    str(n): [1.0e+21, 0.5]\n".to_string(), "A", &docs1);
+    push("lists", "    str(n): [-0.0, .inf]\n".to_string(), "A", &docs1);
+    push("str(k): float", "    str(n): 2.0\n".to_string(), "A", &docs1);
+    push("str(k): float", "    str(n): 1.0e+21\n".to_string(), "A", &docs1);
     push("lists", "    of(n, 2): ['>0', '<10', 5]\n".to_string(), "A", &docs1);
     push("lists", "    all(n): ['>0', '<10']\n".to_string(), "A", &docs1);
     // condition forms
@@ -203,7 +215,14 @@ pub fn build_cases() -> Vec<Case> {
         }
     }
     // two-field forms over pairs
-    let pair_vals: Vec<DocVal> = vals.iter().step_by(2).cloned().collect();
+    let mut pair_vals: Vec<DocVal> = vals.iter().step_by(2).cloned().collect();
+    // both zeros and NaN on both sides: their texts ("0" / "-0", "NaN" / "NaN") and their IEEE
+    // comparison disagree
+    for v in [DocVal::Float(0.0), DocVal::Float(-0.0), DocVal::Float(f64::NAN), DocVal::Int(0), DocVal::s("0"), DocVal::s("-0")] {
+        if !pair_vals.iter().any(|p| format!("{p:?}") == format!("{v:?}")) {
+            pair_vals.push(v);
+        }
+    }
     let mut docs2 = vec![DObj::default()];
     for a in &pair_vals {
         docs2.push(DObj(vec![("n".to_string(), a.clone())]));
@@ -390,7 +409,17 @@ pub fn run(tier: &str, seed: u64) -> i32 {
                 body.push_str(&format!("  I{i}:\n{pred}{second}"));
                 names.push(format!("I{i}"));
             }
-            let cond = names.join(" or ");
+            // now and then a field-to-field comparison (only the condition can express it) joins
+            // the chain
+            let mut operands = names.clone();
+            if let Some((k, op, _, _)) = blocks.first() {
+                match k % 3 {
+                    0 => operands.insert(1, format!("int(n) {} int(m)", if *op == "=" { "==" } else { op })),
+                    1 => operands.push(format!("flt(m) {} flt(n)", if *op == "=" { "==" } else { op })),
+                    _ => {}
+                }
+            }
+            let cond = operands.join(" or ");
             let cond = if *negate { format!("not ({cond})") } else { cond };
             let mk = |c: &str| format!("detection:\n{body}  condition: {c}\ntrue_positives: []\ntrue_negatives: []\n");
             let mut docs = vec![DObj::default()];
